@@ -1,5 +1,6 @@
 """C05 — transfer functions and their lookup tables are faithful, monotone and total."""
 import math
+import re
 import struct
 from fractions import Fraction as Fr
 
@@ -122,6 +123,7 @@ def run(F, rep, tier="quick", extra=None, only=None):
     # ---------------------------------------------------------------- generic curves (shared with C02)
     consts.check_transfer_functions(F, rep, Session(F))
     check_channel_maps(F, rep)
+    check_standard_siblings(F, rep)
     return {"level": "other"}
 
 
@@ -390,3 +392,84 @@ def _channels(v, prefix, problems, meth):
                 problems.append("%s does not go through %s (%s)" % (prefix, w, sorted(aps)))
         return
     problems.append("%s: unexpected %r" % (prefix, v))
+
+
+# STD-REF: which curve each named standard is defined with (IEC 61966-2-1, BT.709/BT.2020, Adobe RGB (1998), SMPTE RP 431-2, Display P3, ROMM).
+STANDARD_CURVE = {
+    "encoding::srgb::Srgb": "encoding::srgb::Srgb",
+    "encoding::rec_standards::Rec709": "encoding::rec_standards::RecOetf",
+    "encoding::rec_standards::Rec2020": "encoding::rec_standards::RecOetf",
+    "encoding::adobe::AdobeRgb": "encoding::adobe::AdobeRgb",
+    "encoding::p3::DciP3": "encoding::p3::P3Gamma",
+    "encoding::p3::DisplayP3": "encoding::srgb::Srgb",
+    "encoding::prophoto::ProPhotoRgb": "encoding::prophoto::ProPhotoRgb",
+}
+
+
+def _iloc(F, im):
+    return "%s:%s" % (F.S[im["loc"][0]], im["loc"][1])
+
+
+def check_standard_siblings(F, rep):
+    """STD-SIB / STD-REF: `Luma<St, _>` and `Rgb<St, _>` of one standard `St` must encode with the same curve and sit at the same white point, and
+    the named standards must use their own curve.  Decided on the normalised associated types of the `RgbStandard`, `LumaStandard` and `RgbSpace`
+    impls (aliases and projections are already resolved by the compiler)."""
+    def normalize(t, depth=0):
+        # resolve `<Concrete as Trait>::Name` through the impl that defines it (the driver records associated types as written)
+        m = re.search(r"<([\w:]+) as ([\w:]+)>::(\w+)", t)
+        while m and depth < 8:
+            hit = None
+            for im in F.impls:
+                if im["self_s"] == m.group(1) and str(im.get("trait") or "") == m.group(2):
+                    for i in im["items"]:
+                        if i["n"] == m.group(3) and "ty" in i:
+                            hit = F.S[i["ty"]]
+            if hit is None:
+                break
+            t = t[:m.start()] + hit + t[m.end():]
+            depth += 1
+            m = re.search(r"<([\w:]+) as ([\w:]+)>::(\w+)", t)
+        return t
+
+    def assoc(im):
+        return {i["n"]: normalize(F.S[i["ty"]]) for i in im["items"] if "ty" in i}
+    rgb, luma, space = {}, {}, {}
+    for im in F.impls:
+        tr = str(im.get("trait") or "")
+        key = im.get("self_adt") or im["self_s"]
+        if im["self_s"].startswith("("):
+            key = "(%d-tuple)" % (im["self_s"].count(",") + 1)
+        if tr.endswith("RgbStandard"):
+            rgb[key] = im
+        elif tr.endswith("LumaStandard"):
+            luma[key] = im
+        elif tr.endswith("RgbSpace"):
+            space[key] = im
+    n = 0
+    for key in sorted(set(rgb) & set(luma)):
+        r, l = assoc(rgb[key]), assoc(luma[key])
+        n += 1
+        # compare modulo the impl's own parameter names: positional renaming of the self type's arguments
+        def norm(im, t):
+            args = alg.split_type(im["self_s"])[1] if "<" in im["self_s"] else (
+                [x.strip() for x in im["self_s"].strip("()").split(",")] if im["self_s"].startswith("(") else [])
+            for i, a in enumerate(args):
+                t = re.sub(r"\b%s\b" % re.escape(a), "$%d" % i, t)
+            return t
+        tr_, tl_ = norm(rgb[key], r.get("TransferFn", "?")), norm(luma[key], l.get("TransferFn", "?"))
+        rep.ob("STD-SIB", "%s: TransferFn" % key, tr_ == tl_,
+               "RgbStandard::TransferFn = %s, LumaStandard::TransferFn = %s" % (r.get("TransferFn"), l.get("TransferFn")), _iloc(F, luma[key]))
+        sp = r.get("Space")
+        spk = None
+        for k, im in space.items():
+            if im["self_s"] == sp:
+                spk = k
+        if spk is not None and "<" not in key and not key.startswith("("):
+            wp = assoc(space[spk]).get("WhitePoint")
+            rep.ob("STD-SIB", "%s: WhitePoint" % key, wp == l.get("WhitePoint"),
+                   "RgbSpace(%s)::WhitePoint = %s, LumaStandard::WhitePoint = %s" % (sp, wp, l.get("WhitePoint")), _iloc(F, luma[key]))
+        if key in STANDARD_CURVE:
+            rep.ob("STD-REF", "%s: curve" % key, r.get("TransferFn") == STANDARD_CURVE[key],
+                   "RgbStandard::TransferFn = %s, the standard defines %s" % (r.get("TransferFn"), STANDARD_CURVE[key]), _iloc(F, rgb[key]))
+    rep.floor("standards with RGB and luma impls", n, 11)
+    rep.floor("named standards with a reference curve", len([k for k in STANDARD_CURVE if k in rgb]), len(STANDARD_CURVE))
